@@ -19,6 +19,7 @@ import (
 	disputetypes "github.com/tellor-io/layer/x/dispute/types"
 	minttypes "github.com/tellor-io/layer/x/mint/types"
 	oracletypes "github.com/tellor-io/layer/x/oracle/types"
+	registrytypes "github.com/tellor-io/layer/x/registry/types"
 	reportertypes "github.com/tellor-io/layer/x/reporter/types"
 )
 
@@ -261,6 +262,14 @@ func runPayoutHistory(t *testing.T, seed int64, blocks int, f06 bool) (string, m
 		_, _ = w.mintMS.Init(w.ctx, &minttypes.MsgInit{Authority: w.authority})
 		w.mintInitialized = true
 	}
+	// short bridge-deposit windows, so that tipped deposit rounds expire, re-open and close inside the history
+	depositRounds := r.Intn(2) == 0
+	if depositRounds {
+		if spec, err := w.s.Registrykeeper.GetSpec(w.ctx, "trbbridge"); err == nil {
+			spec.ReportBlockWindow = uint64(pick(r, 1, 2, 3))
+			_, _ = w.registryMS.UpdateDataSpec(w.ctx, &registrytypes.MsgUpdateDataSpec{Authority: w.authority, QueryType: "trbbridge", Spec: spec})
+		}
+	}
 	init := w.snap()
 	for b := 0; b < blocks && w.halted == ""; b++ {
 		res := w.beginBlock(time.Duration(1+r.Intn(5000)) * time.Millisecond)
@@ -277,6 +286,9 @@ func runPayoutHistory(t *testing.T, seed int64, blocks int, f06 bool) (string, m
 			if r.Intn(2) == 0 {
 				qd = pick(r, w.queries...)
 			}
+			if depositRounds && r.Intn(2) == 0 {
+				qd = w.bridgeQueries[r.Intn(2)]
+			}
 			amt := pick(r, bi(100), bi(101), bi(1000), bi(3), bi(7), bi(1_000_001), bi(50), bi(int64(1+r.Intn(5_000_000))))
 			tipped = append(tipped, qd)
 			do("Tip", a, []*big.Int{amt}, func(ctx sdk.Context) error {
@@ -286,6 +298,9 @@ func runPayoutHistory(t *testing.T, seed int64, blocks int, f06 bool) (string, m
 		}
 		// reports: all (or all but one) reporters on the cycle query and on the tipped queries
 		qs := append([][]byte{w.currentCycleQuery()}, tipped...)
+		if depositRounds && r.Intn(2) == 0 {
+			qs = append(qs, w.bridgeQueries[r.Intn(2)])
+		}
 		for _, qd := range qs {
 			skip := -1
 			if r.Intn(4) == 0 {
@@ -300,6 +315,9 @@ func runPayoutHistory(t *testing.T, seed int64, blocks int, f06 bool) (string, m
 				v := val
 				if r.Intn(3) == 0 {
 					v = w.randValue()
+				}
+				if depositRounds && (string(qd) == string(w.bridgeQueries[0]) || string(qd) == string(w.bridgeQueries[1])) {
+					v = pick(r, "000000000000000000000000000000000000000000000058528649cf80ee0000", randHex(r, 256), randHex(r, 64))
 				}
 				do("SubmitValue", i, nil, func(ctx sdk.Context) error {
 					_, err := w.oracleMS.SubmitValue(ctx, &oracletypes.MsgSubmitValue{Creator: w.accts[i].String(), QueryData: qd, Value: v})
